@@ -79,6 +79,8 @@ func runC34(p *Prog, r *Result) {
 	r.Rule("R34d", "every path of listEnviron_ that stores the pairs has passed the stable sort and the duplicate-elimination loop", 1)
 	r.Rule("R34e", "listEnviron_ sorts and cuts a copy of the caller's slice", 1)
 	checkListEnvironPaths(p, r)
+	r.Rule("R34f", "listEnviron.Get answers \"set\" only on paths that have failed strings.Contains(name, \"=\")", 1)
+	checkGetRejectsEqualsInName(p, r, "R34f")
 	r.Rule("R34c", "dedup removes the earlier duplicate and invalid pairs; Each is a read-only in-order range; funcEnviron.Get maps \"\" to the zero Variable", 5)
 
 	le := p.FuncDecl("expand", "listEnviron_")
@@ -322,6 +324,8 @@ func exprStringNode(n ast.Node) string {
 }
 
 var c34Controls = []Control{
+	{Name: "get-fast-path-before-the-equals-guard", Rule: "R34f", WantKey: "Get#answers set only for a name without '='", File: "expand/environ.go",
+		Mutate: ctlReplaceAnywhere("func (l listEnviron) Get(name string) Variable {\n", "func (l listEnviron) Get(name string) Variable {\n\tif len(l.pairs) == 1 && strings.HasPrefix(l.pairs[0], name+\"=\") {\n\t\treturn Variable{Set: true, Exported: true, Kind: String, Str: l.pairs[0][len(name)+1:]}\n\t}\n")},
 	{Name: "sorted-input-shortcut", Rule: "R34d", WantKey: "pairs stored only after the sort", File: "expand/environ.go",
 		Mutate: ctlReplaceAnywhere("\tenv := listEnviron{caseInsensitive: caseInsensitive}\n\tslices.SortStableFunc(", "\tenv := listEnviron{caseInsensitive: caseInsensitive}\n\tif slices.IsSorted(list) {\n\t\tenv.pairs = list\n\t\treturn env\n\t}\n\tslices.SortStableFunc(")},
 	{Name: "sorts-the-callers-slice", Rule: "R34e", WantKey: "sorts and cuts a copy", File: "expand/environ.go",
